@@ -73,6 +73,7 @@ type Bed struct {
 	hooks []func(point string, args ...interface{})
 
 	tainted bool
+	rpc     *RPC
 }
 
 var current atomic.Value // *Bed receiving vhook events
@@ -116,6 +117,9 @@ func Fresh() (*Bed, error) {
 	b.DB.Reset()
 	b.MQ.Reset()
 	b.ClearHooks()
+	if b.rpc != nil {
+		b.rpc.SetTaps(nil, nil)
+	}
 	return b, nil
 }
 
@@ -184,6 +188,9 @@ func (b *Bed) reallyClose() {
 			defer func() { recover() }()
 			b.Mgr.Mongo.Close(octx.NewOrdaContext(context.TODO(), "bed"))
 		}()
+	}
+	if b.rpc != nil {
+		b.rpc.Stop()
 	}
 	b.DB.Close()
 	b.MQ.Close()
